@@ -14,12 +14,12 @@ from . import c10
 ID = 'C18'
 LEVEL = 'model_checking'
 RULE = ('corpus: every clause shape with 0..3 variables that occur only inside head structures x 0..4 body-only variables '
-        'x 0..2 anonymous variables, heads in which 2..5 variables occur twice, the body trees with <= N operators in the C05 context, the repository\'s sample files, [for (b) and (d) also the body trees with N+1 operators over {! o fail}], and 7 programs that are rejected at different stages (syntax, goal not callable, head name, too large, unsupported term). '
+        'x 0..2 anonymous variables, heads in which 2..5 variables occur twice, the body trees with <= N operators in the C05 context, the repository\'s sample files, [for (b) and (d) also the body trees with N+1 operators over {! o fail}], and 11 programs that are rejected at different stages (syntax, leftover input, goal not callable, head name, too large, unsupported term - also in the middle of a clause whose variables have the names other programs use). '
         '(a) environment exploration of set-iteration order: the names set/frozenset are shadowed in the compiler modules by '
         'an order-controlled stand-in; every call is a choice point and EVERY permutation of its elements is explored at '
         'one call site (thorough: at every pair of call sites), all other sites keeping insertion order - the output must '
         'be byte-identical to the default-order output; (b) the whole corpus is compiled in fresh processes under '
-        'PYTHONHASHSEED 0..5 (thorough 0..15) and the per-program digests must agree; the programs with non-ASCII text (string API and file API) and 40 others also in fresh processes with other environments (C locale without UTF-8 mode, UTF-8 mode, another working directory and time zone); (c) in one process every ordered pair '
+        'PYTHONHASHSEED 0..5 (thorough 0..15) and the per-program digests must agree; the programs with non-ASCII text (string API and file API) and 40 others also in fresh processes with other environments (C locale without UTF-8 mode, UTF-8 mode, another working directory and time zone, python -O); (c) in one process every ordered pair '
         'of corpus programs (from a subset, incl. the same text under other options: debug_filename with different file names, the file API and the library\'s default options object, a CompilerContext instance) is compiled before the target and the target\'s output compared with its output '
         'in a fresh state; (d) the whole corpus is compiled in one process in 3 orders (forward, reverse, interleaved: every program after every other one; every third program also with the tracing options on, forward and reverse) and every output compared with the output of a child forked from a process that has never compiled anything. states = distinct (program, output digest) pairs; transitions = compiler invocations; non-trivial '
         '= the program has >= 2 fresh variables or a choice point was explored')
@@ -69,7 +69,11 @@ def corpus(tier):
             ('fail-head-name', "c(_).\n'x y'(_, _).\n"),
             ('fail-too-large', 'd(_, _) :- %s.\n' % ', '.join('g%d(_)' % i for i in range(25))),
             ('fail-unsupported-term', 'e(_, _, a/1).\n'),
-            ('fail-head-true', 'f(_).\ntrue.\n')]
+            ('fail-head-true', 'f(_).\ntrue.\n'),
+            # input left over after a complete clause (rejected by the check that follows parsing)
+            ('fail-leftover', 'p(a). . p(b).\n'), ('fail-leftover-paren', 'p(_, X) :- q(X). ) r(b).\n'),
+            # rejected in the middle of a clause whose variables have the names the other programs use
+            ('fail-named-variables', 'r(X) :- q(B0, B1), s(H0, foo/2).\n'), ('fail-named-variables-2', 'p(X, Y) :- q(Y, B0, foo/2).\n')]
     return out
 
 
@@ -286,12 +290,19 @@ ENVIRONMENTS = {
     'c-locale-no-utf8-mode': {'LC_ALL': 'C', 'LANG': 'C', 'PYTHONUTF8': '0', 'PYTHONCOERCECLOCALE': '0', 'PYTHONIOENCODING': 'utf8'},
     'utf8-mode': {'LC_ALL': 'C', 'LANG': 'C', 'PYTHONUTF8': '1'},
     'other-working-directory-and-tz': {'TZ': 'Asia/Kathmandu', 'VERIF_CHDIR': '/'},
+    # an interpreter that strips assert statements and __debug__ blocks
+    'python-optimize': {'PYTHONOPTIMIZE': '1'},
 }
 
 
 def non_ascii_corpus(tier):
     return [(n, t) for n, t in corpus_wide(tier) if any(ord(c) > 127 for c in t)] + [
         ('non-ascii-atoms', "book('五輪書', 'é').\nauthor(X) :- X = 'ü', book(_, X).\n% comment with ß\n")]
+
+
+def env_corpus(tier):
+    cp = corpus(tier)
+    return cp[:40] + [c for c in cp if c[0].startswith('fail-')]
 
 
 def compile_file_or_exc(text):
@@ -320,7 +331,7 @@ out = {}
 for name, text in c18.non_ascii_corpus(%(tier)r):
     out[name] = c18.digest(c18.compile_or_exc(text))
     out[name + '@file'] = c18.digest(c18.compile_file_or_exc(text))
-for name, text in c18.corpus(%(tier)r)[:40]:
+for name, text in c18.env_corpus(%(tier)r):
     out[name] = c18.digest(c18.compile_or_exc(text))
 sys.stdout.write(json.dumps(out))
 '''
@@ -459,7 +470,7 @@ def run_shard(spec):
             mine[name] = digest(compile_or_exc(text))
             mine[name + '@file'] = digest(compile_file_or_exc(text))
             texts[name] = texts[name + '@file'] = text
-        for name, text in corpus(tier)[:40]:
+        for name, text in env_corpus(tier):
             mine[name] = digest(compile_or_exc(text))
             texts[name] = text
         for name, d in mine.items():
